@@ -1,5 +1,6 @@
 """C11 — the log rejects corruption instead of reinterpreting it."""
 from ..prims import *
+from ..guards import check_strength
 from ..guards import find_guard, side_tokens
 from ..baselines import baseline
 
@@ -110,6 +111,8 @@ def run(ctx):
         f = prog.fn(path)
         st, detail = find_guard(prog, f, enum, variant, ta, tb)
         rep.check(st == "ok", "C11.R2", "guard:%s:%s:%s~%s" % (f.name, variant, "+".join(sorted(ta)), "+".join(sorted(tb))), detail, "%s — %s" % (st, detail), site=f.loc())
+        if st == "ok":
+            check_strength(rep, "C11.R2", "guard:%s:%s:%s~%s" % (f.name, variant, "+".join(sorted(ta)), "+".join(sorted(tb))), "C11", prog, f, enum, variant, ta, tb)
     ents = {"fs-recovery": [prog.fn(CW + "recover_filesystem_store"), prog.fn(CW + "recover_wal_segment_bytes")],
             "scan": [prog.fn(CW + "recover_from_frames_and_commits")]}
     trees = {}
@@ -178,6 +181,15 @@ def run(ctx):
     if torn_local is not None:
         set_true = [bi for bi, si, place, rv, line in rs.assigns() if place[0] == torn_local and not place[1] and rv["r"] == "use" and "k" in rv["o"] and "true" in rv["o"]["k"]]
         rep.check(len(set_true) >= 2, "C11.R4", "reader:torn-sites", "%d torn-tail sites" % len(set_true), "torn-tail sites: %d" % len(set_true), site=rs.loc())
+        # a torn tail is a LENGTH shortfall: each site is entered from a test of an offset against the buffer length or a
+        # checked-add overflow, never from a test of the bytes' content (which would reclassify damage as a torn append)
+        from ..guards import describe_condition, coarse_condition
+        for b in set_true:
+            sw = controlling_switch(rs, b)
+            d = coarse_condition(describe_condition(rs, sw)) if sw is not None else "?"
+            rep.check(sw is not None and (d.startswith("disc:Option") or (d.startswith("cmp:") and d.endswith("|len"))), "C11.R4", "reader:torn-only-on-length-shortfall",
+                      "torn-tail site gated by %s" % d, "torn_tail is declared on a condition that is not a length shortfall (%s): damaged bytes would be treated as a torn append" % d,
+                      site=rs.loc(rs.block_line(b)))
         dg = rs.call_sites(r"causal_wal::disk_record_digest$")
         heads = [b for b in range(len(rs.blocks)) if False]
         if dg:
